@@ -21,7 +21,7 @@ import shutil
 from pathlib import Path
 
 from .. import evidence, tlc
-from ..common import MachineryError, Timer, guarded, log, pmap, scratch_dir, seed, workdir
+from ..common import per_process, MachineryError, Timer, guarded, log, pmap, scratch_dir, seed, workdir
 from ..findings import Reporter
 from ..tlaval import parse, read_dump
 from .. import universe as U
@@ -37,14 +37,12 @@ _WORLD = {}
 
 def world(depth):
     """One universe tree per worker process."""
-    if depth not in _WORLD:
-        top = scratch_dir("c11")
-        import atexit
-
-        atexit.register(shutil.rmtree, str(top), True)
+    def make():
+        top = scratch_dir("c11")  # under the run's scratch root, removed with it
         root, files = U.build(top, depth)
-        _WORLD[depth] = (top, root, files)
-    return _WORLD[depth]
+        return (top, root, files)
+
+    return per_process(("c11-world", depth), make)
 
 
 def names_of(path_tuple):
